@@ -255,6 +255,18 @@ def main(argv: Optional[List[str]] = None) -> int:
                 if h.opts.get('tier') == 'thorough' and tier != 'thorough':
                     continue
                 hs.append((h, mk))
+    # dependencies: contracts of OTHER properties that this property's contracts assume at call sites (modular verification reports a broken
+    # callee on the callee's obligation); they are re-checked here so that the verdict for this property does not rest on an unchecked assumption
+    n_own = len(hs)
+    for dep in entry.get('deps', []) if not a.filter else []:
+        dm = importlib.import_module(dep['module'])
+        mk = getattr(dm, 'make_registry', H.Registry)
+        flt = dep.get('filters')
+        for h in H.HARNESSES:
+            if h.fn.__module__ == dm.__name__ and h.prop == dep['prop'] and (not flt or any(x in h.id for x in flt)):
+                if h.opts.get('tier') == 'thorough' and tier != 'thorough':
+                    continue
+                hs.append((h, mk))
     _STATE['harnesses'] = hs
     _STATE['overlay'] = ov
     check_ms = 60000 if tier == 'thorough' else 10000
@@ -318,7 +330,7 @@ def main(argv: Optional[List[str]] = None) -> int:
     seen_viol: set = set()
     for ob in allobs:
         if ob['status'] == 'refuted':
-            k = match_known(known, prop, ob)
+            k = match_known(known, hs[ob['harness']][0].prop, ob)  # (a dependency's recorded finding is matched under its own property)
             if k is not None:
                 key = (k['obligation'], k.get('what'))
                 if key not in seen_known:
@@ -428,7 +440,7 @@ def _write_evidence(prop: str, tier: str, seed: int, entry: Dict[str, Any], mods
         st: Dict[str, int] = {}
         for ob in r['obligations']:
             st[ob['status']] = st.get(ob['status'], 0) + 1
-        per_h.append({'harness': hs[r['i']][0].id if hs else '?', 'paths': r['paths'], 'cut_paths': r['cut'], 'obligations': len(r['obligations']),
+        per_h.append({'harness': hs[r['i']][0].id if hs else '?', 'contract_of_property': hs[r['i']][0].prop if hs else '?', 'paths': r['paths'], 'cut_paths': r['cut'], 'obligations': len(r['obligations']),
                       'by_status': st, 'seconds': round(r['seconds'], 2), 'error': r['error']})
     # statement coverage of the functions executed symbolically (union over harnesses): statements never executed on any path
     # are unverified text inside a function under contract
